@@ -538,9 +538,33 @@ impl Engine for CollEngine {
             "C14" => [10, 4, 5, 5, 4, 4, 2, 4, 5, 4, 3, 4, 8, 6, 4, 7, 3, 2, 5, 7, 4, 4, 0, 1, 4, 2, 2, 9, 1, 3],
             _ => [10, 4, 6, 6, 4, 4, 2, 4, 5, 4, 3, 4, 7, 6, 4, 5, 3, 4, 3, 4, 2, 2, 0, 4, 2, 7, 4, 5, 2, 3],
         };
+        if self.prop == "C15" {
+            // ownership of boxed values is part of C15 as well: one case in five is a Box scenario (box_eng.rs)
+            let coll = coll_strategy(&w, 40).prop_map(|mut v| {
+                v.insert(0, 0);
+                v
+            });
+            let boxes = crate::box_eng::C17Engine.strategy(_tier).prop_map(|mut v| {
+                v.insert(0, 1);
+                v
+            });
+            return prop_oneof![4 => coll, 1 => boxes].boxed();
+        }
         coll_strategy(&w, 40)
     }
     fn run(&self, bytes: &[u8]) -> CaseOut {
+        let bytes = if self.prop == "C15" {
+            if bytes.first().cloned().unwrap_or(0) == 1 {
+                let (viol, nt, _) = crate::box_eng::run_box_case(&bytes[1..]);
+                let mut stats = vec![0u32; VST_NAMES.len()];
+                stats[V::Ops as usize] = 1;
+                stats[V::Conversions as usize] = 1;
+                return CaseOut { viol, nontrivial: nt, hash: fnv(bytes), stats, ..Default::default() };
+            }
+            bytes.get(1..).unwrap_or(&[])
+        } else {
+            bytes
+        };
         let ctx = run_coll_case(bytes);
         let mut out = CaseOut { hash: fnv(bytes), stats: ctx.stats.to_vec(), ..Default::default() };
         let g = |x: V| ctx.stats[x as usize];
@@ -559,6 +583,12 @@ impl Engine for CollEngine {
         out
     }
     fn describe(&self, bytes: &[u8]) -> Value {
+        if self.prop == "C15" {
+            if bytes.first().cloned().unwrap_or(0) == 1 {
+                return crate::box_eng::C17Engine.describe(&bytes[1..]);
+            }
+            return describe_coll(bytes.get(1..).unwrap_or(&[]));
+        }
         describe_coll(bytes)
     }
     fn sweep(&self, tier: Tier, idx: u32, nworkers: u32) -> Option<SweepOut> {
@@ -572,7 +602,7 @@ impl Engine for CollEngine {
         str_eng::replay_decoder_item(item)
     }
     fn fuzz(&self) -> Option<FuzzSpec> {
-        Some(FuzzSpec { target: "fz_coll", max_len: 5 * 60, target_prefix: vec![], engine_prefix: vec![] })
+        Some(FuzzSpec { target: "fz_coll", max_len: 5 * 60, target_prefix: vec![], engine_prefix: if self.prop == "C15" { vec![0] } else { vec![] } })
     }
     fn stat_names(&self) -> Vec<&'static str> {
         VST_NAMES.to_vec()
